@@ -1,7 +1,8 @@
 """Sensitivity pass (development tool, not a manifest command): ./check mutants [--only C06,...]
 
-Applies small realistic patches to /repo's working tree one at a time, runs the quick check of the
-property each one breaks, and restores the tree (git checkout -- .).  Two families:
+Applies small realistic patches one at a time to a scratch worktree of /repo's HEAD under /dev/shm (imported by the
+checks through PYTHONPATH; /repo itself is never touched), runs the quick check of the property each one breaks, and
+restores the worktree (git checkout -- .); the worktree is removed at the end.  Two families:
   * regressions: the reverse of each `fix:` commit recorded in KNOWN_FINDINGS.txt;
   * hand-written mutants (text substitutions) from DESIGN.md section 2.7.
 /verif/seeded/<id>/patch.diff (changes written by independent sub-agents) are run the same way.
@@ -17,7 +18,11 @@ import sys
 import time
 
 ROOT = os.path.dirname(os.path.dirname(os.path.abspath(__file__)))
-REPO = "/repo"
+SRC_REPO = "/repo"
+# The patches are applied to a scratch worktree of /repo's HEAD (removed afterwards), never to /repo itself; the checks
+# import it through PYTHONPATH and write their evidence and replay files to a scratch directory as well.
+REPO = "/dev/shm/simverif-mutants-wt"
+SCRATCH = "/dev/shm/simverif-mutants-out"
 
 # (name, property, file, old, new)
 HAND = [
@@ -50,6 +55,9 @@ def repo_clean():
 def run_check(prop, runs=None, seed=0):
     env = dict(os.environ)
     env["VERIF_SEED"] = str(seed)
+    env["PYTHONPATH"] = REPO
+    env["VERIF_EVIDENCE_DIR"] = os.path.join(SCRATCH, "evidence")
+    env["VERIF_REPLAY_DIR"] = os.path.join(SCRATCH, "replays")
     cmd = [os.path.join(ROOT, "check"), prop, "--tier", "quick"]
     if runs:
         cmd += ["--runs", str(runs)]
@@ -74,8 +82,11 @@ def main(argv):
     if "--only" in argv:
         only = set(argv[argv.index("--only") + 1].upper().split(","))
     families = set(a for a in argv if a in ("regressions", "hand", "seeded")) or {"regressions", "hand", "seeded"}
-    if not repo_clean():
-        print("refusing to run: /repo working tree is not clean")
+    sh("git -C %s worktree remove --force %s" % (SRC_REPO, REPO))
+    sh("rm -rf %s %s" % (REPO, SCRATCH))
+    r = sh("git -C %s worktree add --detach %s HEAD" % (SRC_REPO, REPO))
+    if r.returncode != 0:
+        print("cannot create scratch worktree: %s" % r.stderr[-300:])
         return 2
     results = []
     try:
@@ -128,7 +139,9 @@ def main(argv):
                 results.append({"kind": "seeded", "name": sid, "property": prop, "applied": True, "exit": code, "caught": code == 1, "violations": viol, "wall_s": round(wall, 1), "also": extra})
                 print("%-40s %-4s exit=%s %s" % ("seeded/" + sid, prop, code, (viol[0][:110] if viol else "")), flush=True)
     finally:
-        sh("git -C %s checkout -- ." % REPO)
+        sh("git -C %s worktree remove --force %s" % (SRC_REPO, REPO))
+        sh("rm -rf %s %s" % (REPO, SCRATCH))
+        sh("git -C %s worktree prune" % SRC_REPO)
     os.makedirs(os.path.join(ROOT, "seeded"), exist_ok=True)
     path = os.path.join(ROOT, "seeded", "RESULTS.json")
     old = []
